@@ -73,7 +73,7 @@ type fact struct {
 }
 
 type prover struct {
-	linDepth int
+	linDepth     int
 	w            *World
 	fn           *ssa.Function
 	site         ssa.Instruction
